@@ -31,6 +31,7 @@ REQUIRED = {
     "rejections_checked": {"quick": 1500, "thorough": 15000},
     "refilled_buffers_checked": {"quick": 1000, "thorough": 12000},
     "derived_screens_checked": {"quick": 600, "thorough": 8000},
+    "held_plate_views_after_merge": {"quick": 300, "thorough": 1500},
 }
 N_CASES = {"quick": 8000, "thorough": 96000}
 
@@ -332,8 +333,17 @@ def piggyback(rec, tier, rng):
                             okm = False
                     rec.check(okm and sorted(set(ids_now)) == list(range(len(set(names_now)))), "C01/plate/ids-not-dense", lambda: "after Plate.merge with a partial view the plate ids %r are not a dense encoding of the plate names %r" % (ids_now[:12], names_now[:12]), None)
                 if pls.n_plates >= 2:
-                    a, b = pls.plates[0], pls.plates[-1]
+                    held = list(pls.plates)
+                    _ids_before = [int(v.plate_id) for v in held]  # the views are asked once before the merge
+                    a, b = held[0], held[-1]
                     a.merge(b)
+                    # plate views held by the caller: after the merge renumbered the screen's plates, each of them
+                    # still reports the id (and name) that its rows carry
+                    rec.count("held_plate_views_after_merge", len(held))
+                    for v in held:
+                        rows_ = np.flatnonzero(np.asarray(v.selection_vector))
+                        ids_ = set(int(x) for x in np.asarray(pls.plate_ids)[rows_])
+                        rec.check(ids_ == {int(v.plate_id)}, "C01/plate/ids-not-dense", lambda: "after Plate.merge a held plate view reports plate_id %d while its rows carry ids %r" % (int(v.plate_id), sorted(ids_)), None)
                     m2 = R.mask_screen(pls)
                     rec.check(int(m2.n_plates) == len(set(str(x) for x in m2.plate_names)) and sorted(set(int(x) for x in m2.plate_ids)) == list(range(m2.n_plates)), "C01/plate/ids-not-dense", "after Plate.merge + mask_screen the plate ids are not the dense range over the plate names", None)
                 rec.count("piggyback_pipelines")
